@@ -1,5 +1,5 @@
 (* operations of the per-format layout models (NWChem electron section, ...) *)
-From BSE Require Import Model.Val Model.Basis Model.Nwchem Model.G94.
+From BSE Require Import Model.Val Model.Basis Model.Nwchem Model.G94 Model.Turbomole Model.NwchemEcp.
 Definition dec_zshells (v : val) : res (list (Z * list sshell)) :=
   do l <- as_list v;
   mapM (fun x => match x with
@@ -8,11 +8,36 @@ Definition dec_zshells (v : val) : res (list (Z * list sshell)) :=
                  end) l.
 Definition enc_zshells (l : list (Z * list sshell)) : val :=
   VList (map (fun zs => VList [VInt (fst zs); VList (map enc_shell (snd zs))]) l).
+Definition dec_epot (v : val) : res epot :=
+  do d <- as_dict v;
+  do t <- (do x <- field "ecp_type" d; as_str x);
+  do a <- (do x <- field "angular_momentum" d; dec_ints x);
+  do r <- (do x <- field "r_exponents" d; dec_ints x);
+  do g <- (do x <- field "gaussian_exponents" d; dec_strs x);
+  do c <- (do x <- field "coefficients" d; do l <- as_list x; mapM dec_strs l);
+  ok (mkEpot t a r g c).
+Definition enc_epot (p : epot) : val :=
+  VDict [("ecp_type", VStr (p_type p)); ("angular_momentum", VList (map VInt (p_am p))); ("r_exponents", VList (map VInt (p_rexp p)));
+         ("gaussian_exponents", VStrs (p_gexp p)); ("coefficients", VList (map VStrs (p_coef p)))].
+Definition dec_zecps (v : val) : res (list (Z * (Z * list epot))) :=
+  do l <- as_list v;
+  mapM (fun x => match x with
+                 | VList [VInt z; VInt ne; ps] => do pl <- as_list ps; do pp <- mapM dec_epot pl; ok (z, (ne, pp))
+                 | _ => fail EDecode
+                 end) l.
+Definition enc_nw_el (e : nw_el) : val :=
+  VDict [("electron_shells", VList (map enc_shell (e_shells e)));
+         ("ecp_electrons", match e_nelec e with Some n => VInt n | None => VNone end);
+         ("ecp_potentials", VList (map enc_epot (e_pots e)))].
 Definition ops_formats (op : string) (args : list val) : option (res val) :=
   match op, args with
   | "nw_write_electron", [VStr harm; els] => Some (do e <- dec_zshells els; do t <- nw_write_electron harm e; ok (VStr t))
   | "nw_read_electron", [ls] => Some (do l <- dec_strs ls; do r <- nw_read_electron l; ok (enc_zshells r))
   | "g94_write_electron", [els] => Some (do e <- dec_zshells els; do t <- g94_write_electron e; ok (VStr t))
+  | "tm_write_electron", [VStr role; VStr name; els] => Some (do e <- dec_zshells els; do t <- tm_write_electron role name e; ok (VStr t))
+  | "tm_read_electron", [ls] => Some (do l <- dec_strs ls; do r <- tm_read_electron l; ok (enc_zshells r))
+  | "nw_write_all", [VStr harm; els; ecps] => Some (do e <- dec_zshells els; do c <- dec_zecps ecps; do t <- nw_write_all harm e c; ok (VStr t))
+  | "nw_read_all", [ls] => Some (do l <- dec_strs ls; do r <- nw_read_all l; ok (VList (map (fun ze => VList [VInt (fst ze); enc_nw_el (snd ze)]) r)))
   | "g94_read_electron", [ls] => Some (do l <- dec_strs ls; do r <- g94_read_electron l; ok (enc_zshells r))
   | _, _ => None
   end.
